@@ -77,6 +77,8 @@ def run_one(job):
             out, mds = out
             rec["extra"] = [codec.enc(ast.parse(repr(m), mode="eval")) for m in mds]
         rec["out"] = codec.enc(out)
+        if pass_name == "tofunc":      # idempotence: apply once more to the result
+            rec["out2"] = codec.enc(_apply(pass_name, out))
         ok, _ = _compiles(out) if isinstance(out, ast.AST) else (False, "")
         rec["flags"]["compiles"] = ok
         rec["flags"]["input_unchanged"] = (codec.enc(node) == tin)
